@@ -1,0 +1,88 @@
+// Copyright 2017 Pilosa Corp.
+//
+// Licensed under the Apache License, Version 2.0 (the "License");
+// you may not use this file except in compliance with the License.
+// You may obtain a copy of the License at
+//
+//     http://www.apache.org/licenses/LICENSE-2.0
+//
+// Unless required by applicable law or agreed to in writing, software
+// distributed under the License is distributed on an "AS IS" BASIS,
+// WITHOUT WARRANTIES OR CONDITIONS OF ANY KIND, either express or implied.
+// See the License for the specific language governing permissions and
+// limitations under the License.
+
+package pilosa_test
+
+import (
+	"os"
+	"reflect"
+	"strings"
+	"testing"
+)
+
+// A translate file that ends inside its last entry (the process was killed
+// while appending it; an entry larger than the write buffer goes out in several
+// chunks) must open with every complete entry, and keys allocated afterwards
+// must survive the next open.
+func TestTranslateFile_Open_TornEntry(t *testing.T) {
+	s := MustOpenTranslateFile()
+	defer s.MustClose()
+
+	if ids, err := s.TranslateColumnsToUint64("IDX0", []string{"foo", "bar"}); err != nil {
+		t.Fatal(err)
+	} else if !reflect.DeepEqual(ids, []uint64{1, 2}) {
+		t.Fatalf("unexpected ids: %#v", ids)
+	}
+	fi, err := os.Stat(s.Path)
+	if err != nil {
+		t.Fatal(err)
+	}
+	valid := fi.Size()
+	big := strings.Repeat("0123456789abcdef", 400)
+	if _, err := s.TranslateColumnsToUint64("IDX0", []string{big}); err != nil {
+		t.Fatal(err)
+	}
+	if fi, err = os.Stat(s.Path); err != nil {
+		t.Fatal(err)
+	}
+	full := fi.Size()
+
+	for _, size := range []int64{valid + 1, valid + 2, valid + 7, valid + 4096, full - 1} {
+		if err := s.TranslateFile.Close(); err != nil {
+			t.Fatal(err)
+		}
+		if err := os.Truncate(s.Path, size); err != nil {
+			t.Fatal(err)
+		}
+		if err := s.Reopen(); err != nil { // a new instance on the same file
+			t.Fatalf("cut at %d: open with a torn entry: %v", size, err)
+		}
+
+		if fi, err := os.Stat(s.Path); err != nil {
+			t.Fatal(err)
+		} else if fi.Size() != valid {
+			t.Fatalf("cut at %d: file size %d after open, expected %d", size, fi.Size(), valid)
+		}
+		if key, err := s.TranslateColumnToString("IDX0", 2); err != nil || key != "bar" {
+			t.Fatalf("cut at %d: id 2 = %q, %v", size, key, err)
+		} else if key, err := s.TranslateColumnToString("IDX0", 3); err != nil || key != "" {
+			t.Fatalf("cut at %d: torn entry applied: id 3 = %.20q, %v", size, key, err)
+		}
+
+		// allocate again and make sure it is readable after another open
+		if ids, err := s.TranslateColumnsToUint64("IDX0", []string{big}); err != nil {
+			t.Fatal(err)
+		} else if !reflect.DeepEqual(ids, []uint64{3}) {
+			t.Fatalf("cut at %d: unexpected ids: %#v", size, ids)
+		}
+		if err := s.Reopen(); err != nil {
+			t.Fatal(err)
+		}
+		if key, err := s.TranslateColumnToString("IDX0", 3); err != nil || key != big {
+			t.Fatalf("cut at %d: id 3 = %.20q after reopen, %v", size, key, err)
+		} else if ids, err := s.TranslateColumnsToUint64("IDX0", []string{"foo", big}); err != nil || !reflect.DeepEqual(ids, []uint64{1, 3}) {
+			t.Fatalf("cut at %d: ids = %v, %v", size, ids, err)
+		}
+	}
+}
